@@ -29,8 +29,11 @@ package hpke
 //@   ensures hsetupOk(int(kemID), int(kdfID), int(aeadID), priv, cid(info), cid(encPubEph)) ==> err == nil && r != nil && fresh(r) && hseq(r) == 0 && hid(r) == hsetup(int(kemID), int(kdfID), int(aeadID), priv, cid(info), cid(encPubEph))
 //@   ensures !hsetupOk(int(kemID), int(kdfID), int(aeadID), priv, cid(info), cid(encPubEph)) ==> err != nil && liberr(err) && r == nil
 
+// (The functional clauses of Open are trusted. One thing about its body is checked: the plaintext must go to a fresh buffer,
+// never into the caller's ciphertext - a failed trial decryption would otherwise destroy the payload for the next candidate key.)
 //@ func Receipient.Open returns (pt, err)
 //@   trusted
+//@   callsite "r.aead.Open(" requires[O:fresh-destination] isnil(arg0)
 //@   requires r != nil
 //@   requires[S:nonce-limit] 0 <= hseq(r) && hseq(r) < 1000000
 //@   modifies hseq(r)
